@@ -45,6 +45,8 @@ type rFrame struct {
 	Tag     int64  `json:"tag"` // data frames: the U4 in the body (sender index for primaries, fid for peer frames); -1 none
 	Len     int    `json:"len"`
 	WriteOK bool   `json:"write_ok,omitempty"`
+	ReadT   int64  `json:"-"` // inbound: wall clock (unix nanos) when the peer finished reading the frame
+	EndT    int64  `json:"-"` // outbound: wall clock when the write returned
 }
 
 func (f rFrame) W() bool      { return f.B2&0x80 != 0 }
@@ -89,6 +91,7 @@ type rGen struct {
 	readGate  chan struct{} // closed = reading allowed; replaced to stall
 	gateMu    sync.Mutex
 	stallAt   atomic.Int64  // >0: stop reading after this many bytes of the NEXT frame (mid-write stall)
+	StallT    atomic.Int64  // wall clock of the moment the mid-frame stall engaged (0 = not yet)
 	selected  chan struct{} // closed when the peer has answered Select.req
 	readerEnd chan struct{}
 }
@@ -197,6 +200,7 @@ func (p *rPeer) reader(g *rGen) {
 			}
 			g.stallAt.Store(0)
 			g.stall()
+			g.StallT.Store(time.Now().UnixNano())
 			<-g.gate()
 			if _, err := io.ReadFull(g.peerEnd, buf[k:]); err != nil {
 				return
@@ -210,6 +214,7 @@ func (p *rPeer) reader(g *rGen) {
 			f.Tag = rParseTag(buf[10:])
 		}
 		f.Stamp = rStamp()
+		f.ReadT = time.Now().UnixNano()
 		g.mu.Lock()
 		g.in = append(g.in, f)
 		g.mu.Unlock()
@@ -261,6 +266,7 @@ func (p *rPeer) sendNoQuiet(g *rGen, f rFrame, body []byte) rFrame {
 	if err == nil {
 		f.WriteOK = true
 		f.EndStmp = rStamp()
+		f.EndT = time.Now().UnixNano()
 	}
 	g.mu.Lock()
 	g.out = append(g.out, f)
@@ -351,11 +357,12 @@ func (rNopLogger) Level() logger.LogLevel      { return logger.LogLevel(0) }
 func (rNopLogger) SetLevel(logger.LogLevel)    {}
 
 type rConnOpts struct {
-	Linktest     time.Duration
-	T3, T6       time.Duration
-	WriteTimeout time.Duration
-	Backoff      time.Duration
-	QueueSize    int
+	ValidateSession bool
+	Linktest        time.Duration
+	T3, T6          time.Duration
+	WriteTimeout    time.Duration
+	Backoff         time.Duration
+	QueueSize       int
 }
 
 func rNewConn(p *rPeer, o rConnOpts) (hsmsss.Connection, error) {
@@ -382,6 +389,11 @@ func rNewConn(p *rPeer, o rConnOpts) (hsmsss.Connection, error) {
 		copt(hsms.WithSenderQueueSize(o.QueueSize)), copt(hsms.WithLogger(rNopLogger{})))
 	if err != nil {
 		return nil, err
+	}
+	if o.ValidateSession {
+		if err := cfg.ApplyOptions(copt(hsms.WithSessionIDValidation(true))); err != nil {
+			return nil, err
+		}
 	}
 	return hsmsss.New(cfg)
 }
